@@ -4,6 +4,7 @@ import (
 	"fmt"
 	"os"
 	"path/filepath"
+	"regexp"
 	"sort"
 	"strings"
 )
@@ -46,8 +47,23 @@ func EmitTypes(dir string, s Src) error {
 		return err
 	}
 	code := "package " + s.Name + "\n" + s.Code
-	return os.WriteFile(filepath.Join(pd, "types.go"), []byte(code), 0o644)
+	if err := os.WriteFile(filepath.Join(pd, "types.go"), []byte(code), 0o644); err != nil {
+		return err
+	}
+	// two neighbours in the same directory that are NOT part of the build: a platform variant
+	// and a scratch file, each declaring the SAME type names with other fields. Only the
+	// -input file defines the struct; what lies next to it must not matter.
+	var decoy strings.Builder
+	for _, m := range typeDecl.FindAllStringSubmatch(s.Code, -1) {
+		fmt.Fprintf(&decoy, "type %s struct {\n\tZDecoy%s string `parquet:\"zdecoy\"`\n\tZMore []float64\n}\n\n", m[1], m[1])
+	}
+	if err := os.WriteFile(filepath.Join(pd, "zz_types_plan9.go"), []byte("//go:build plan9\n\npackage "+s.Name+"\n\n"+decoy.String()), 0o644); err != nil {
+		return err
+	}
+	return os.WriteFile(filepath.Join(pd, "zz_scratch.go"), []byte("//go:build ignore\n\npackage main\n\n"+decoy.String()+"func main() {}\n"), 0o644)
 }
+
+var typeDecl = regexp.MustCompile(`(?m)^type (\w+) struct`)
 
 // EmitGlue writes <dir>/<name>/glue.go which registers the generated package
 // with the driver runtime.
